@@ -8,5 +8,5 @@ Init == fv \in FVs
 Spec == Init /\ [][UNCHANGED fv]_fv
 \* a subgrid cannot be requested when the grid section is omitted altogether (version 2 has nowhere to put it)
 Expressible == ~(fv.subgrid /\ fv.gridsec = "omitted")
-SameMeaning == Expressible => (MeanV2(RenderV2(fv)) = Canon(fv) /\ MeanV1(RenderV1(fv)) = Canon(fv))
+SameMeaning == Expressible => \A f \in {"f_00.nc", "f_10.nc"} : (MeanV2(RenderV2(fv, f), f) = Canon(fv, f) /\ MeanV1(RenderV1(fv, f), f) = Canon(fv, f))
 =============================================================================
